@@ -221,6 +221,8 @@ def quarantine_for(prop_id):
         for row in doc.get("entries", []):
             if row.get("finding") in open_ids and row.get("by", "label") == "label":
                 q.append({"label": re.escape(row["label"]), "families": [row["family"]], "finding": row["finding"]})
+            elif row.get("finding") in open_ids and row.get("by") == "family":
+                q.append({"family": row["family"], "finding": row["finding"]})
     return q
 
 
